@@ -23,6 +23,10 @@ CLAIMED = {
    text="Seeded deterministic simulation of the real driver with all three kinds of goroutine real (1-3 application goroutines, runAsync, runEngine) on emulation platforms (1-4 GPUs, plain and unified devices) and the shipped R9 Nano timing platform, inside a testing/synctest bubble under a controlled goroutine scheduler: every goroutine parks at yield points (driver hooks, between engine events) and the controller draws who runs next, one at a time; safety oracle from data (queued chains H2D/D2D-kernel/H2D/D2D-kernel/D2H/D2H prove FIFO order, visibility of predecessors' effects and that drain returns after completion; guard zones prove isolation), liveness oracle exact (every goroutine durably blocked with work unfinished = deadlock, classified by what is pending). Three genuine defects found and repaired (fix: commits: engine-exit race, lost wake-up - the pinned suite's intermittent TestTensor hang - and a dispatcher panic with concurrent kernels). Exploration, not proof; the race-detector clause is not decided by this check.",
    note="Trusted: testing/synctest's notion of durable blocking, the controller, yield points outside critical sections and engine events; faithful engine order. Data races (the property's last clause) are outside what the controlled scheduler decides.",
    ref="6 (C12), 12"),
+ "C14": dict(
+   text="Seeded deterministic simulation of the real timing compute unit inside a mini timing platform (R9 Nano-style GPU reduced to 1-2 compute units with its real caches, TLBs, ROBs, translators, DRAM, command processor and driver; same-time events permuted in half of the runs; one run in 6 on the emulator as reference) executing generated programs (kasm, checked with the repository's disassembler): LDS exchange across 1-16 wavefronts with 1-3 write/barrier/read/barrier rounds and optional early-exiting wavefronts, dependent uses behind s_waitcnt vmcnt(1)/vmcnt(0)/lgkmcnt(0) on sentinel-initialised registers, the empty kernel; 1-24 work-groups so that up to 40 wavefronts are resident on one unit. Oracles: values against the program's Go closure, barrier ordering on the per-wavefront issue trace, one WGCompletionMsg per MapWGReq, exact hang detection. One genuine defect found and repaired (fix: commit: early exit before a barrier). Exploration, not proof.",
+   note="Trusted: kasm programs and closures (validated on the emulator runs), synctest, the controller; memory latencies are those of the real hierarchy (no adversarial memory stub), the wait-count rule is decided through values.",
+   ref="6 (C14), 12"),
  "C15": dict(
    text="Seeded deterministic simulation of the real rob.ReorderBuffer between a scripted requester, an adversarial memory stub and a control agent over fault-injecting connections; online oracle over the complete port history (order, exactly-once, payload, forwarding, occupancy, flush semantics, liveness at quiescence). Exploration: a clean batch is evidence over the sampled (configuration, schedule, fault sequence) space, not proof.",
    note="Trusted: akita sim.Port/Buffer semantics, the harness's own stubs and oracle; links reliable and FIFO per pair (DESIGN 4.2); request classification around flush/restart as defined in DESIGN C15.",
@@ -61,7 +65,6 @@ PENDING = {
  "C01": "check not built yet (planned: whole-platform simulation, DESIGN 6 C01)",
  "C02": "check not built yet (planned: emu-vs-timing differential simulation, DESIGN 6 C02)",
  "C05": "check not built yet (planned: host-schedule exploration under the goroutine controller, DESIGN 6 C05)",
- "C14": "check not built yet (planned: CU in a box, DESIGN 6 C14)",
 }
 
 def hook_commits():
